@@ -143,3 +143,25 @@ package fox
 //@ effects (*Txn).Len : nolock props C06
 //@ effects (*Txn).Iter : nolock props C06
 //@ effects (*iTree).lookup : noalloc except copyWithResize props C16
+
+//@ -- ---------------------------------------------------------------- C08: the Location of a trailing-slash redirect
+//@ -- a relative reference that stays on the site and on the adjusted path: built from the *escaped* request
+//@ -- path, and never starting with a segment that contains ':' (RFC 3986 section 4.2)
+//@ fun escPath(u *url.URL) string
+//@ fun pathBase(p string) string
+//@ extern (*URL).EscapedPath in net/url pure
+//@   ensures same(result, escPath(u)) && len(result) >= 1
+//@ extern Base in path pure
+//@   ensures same(result, pathBase(path)) && len(result) >= 1 && (len(result) > 1 ==> forall i int :: {result[i]} 0 <= i && i < len(result) ==> result[i] != '/')
+//@ extern localRedirect
+//@   modifies heap, wFinal, wFirst, wInfo, wBody
+
+//@ func defaultRedirectTrailingSlashHandler props C08 partial
+//@   requires c != nil
+//@   modifies heap, wFinal, wFirst, wInfo, wBody
+//@   assert-at call FixTrailingSlash#1 : escaped-path: same(arg_path, escPath(req.URL))
+//@   assert-at call localRedirect#1 : code: (req.Method == "GET" ==> arg_code == 301) && (req.Method != "GET" ==> arg_code == 308)
+//@   assert-at call localRedirect#1 : adds-slash: len(arg_path) >= 2 && arg_path[len(arg_path)-1] == '/'
+//@   assert-at call localRedirect#1 : no-scheme: forall i int :: {arg_path[i]} 0 <= i && i < len(arg_path) && arg_path[i] == ':' ==> arg_path[0] == '.' && arg_path[1] == '/'
+//@   assert-at call localRedirect#2 : code: (req.Method == "GET" ==> arg_code == 301) && (req.Method != "GET" ==> arg_code == 308)
+//@   assert-at call localRedirect#2 : parent-relative: len(arg_path) >= 4 && arg_path[0] == '.' && arg_path[1] == '.' && arg_path[2] == '/'
